@@ -23,17 +23,38 @@ import (
 	"fmt"
 	"sort"
 	"strings"
+	"unicode/utf8"
 
 	c "verifharness/common"
 )
 
-const sigKeyCollision = "lost-traffic:restart:key-collision"
+const (
+	sigKeyCollision = "lost-traffic:restart:key-collision"
+	sigNonUTF8Key   = "lost-traffic:restart:non-utf8-key"
+)
 
 // ---------------------------------------------------------------- generator
 
 var collisionKinds = []string{
 	"method-case", "method-space", "host-case", "path-case", "trailing-slash",
 	"delimiter-in-url", "tag-case", "tag-space", "interceptor-case", "percent-case",
+	"non-utf8-url", "non-utf8-tag", "non-utf8-interceptor", "non-utf8-method", "non-utf8-url", "non-utf8-tag",
+}
+
+// Byte strings that are not valid UTF-8 and read the same once written to the
+// (JSON) state file, next to well-formed neighbours that must stay distinct:
+// Latin-1 letters, truncated sequences, overlong forms, surrogates, values
+// beyond U+10FFFF, bytes F5..FF, runs of several ill-formed bytes, and an
+// ill-formed byte next to a literal U+FFFD.
+var nonUTF8Groups = [][]string{
+	{"caf\xe9", "caf\xe8", "caf\u00e9"},
+	{"a\xe2\x82", "a\xe2", "a\u20ac"},
+	{"\xc0\xaf", "\xc1\xbf", "\xc2\xaf"},
+	{"\xed\xa0\x80", "\xf4\x90\x80\x80", "\xf5"},
+	{"x\xff", "x\uFFFD", "x\xfe\xfd"},
+	{"\xe9a\xe8", "\xe8a\xe9", "\xe9\xe8a"},
+	{"\xff\xfe", "\xff", "\U0001F600"},
+	{"\xf0\x9f\x98", "\xf0\x9f", "\xe2\x82\xe2\x82\xac"},
 }
 
 // some: all the spellings, or all but one (never fewer than two)
@@ -92,6 +113,27 @@ func variants(r *c.Rng, kind string, base Rec) []Rec {
 	case "interceptor-case":
 		return some(r, []Rec{with(func(x *Rec) { x.Icpt = "PY/1.0" }), with(func(x *Rec) { x.Icpt = "py/1.0" }),
 			with(func(x *Rec) { x.Icpt = "py /1.0" })})
+	case "non-utf8-url", "non-utf8-tag", "non-utf8-interceptor", "non-utf8-method":
+		g := c.Pick(r, nonUTF8Groups)
+		var out []Rec
+		for _, frag := range g {
+			frag := frag
+			switch kind {
+			case "non-utf8-url":
+				out = append(out, with(func(x *Rec) { x.URL = base.URL + "/" + frag }))
+			case "non-utf8-tag":
+				out = append(out, with(func(x *Rec) { x.Cons = frag }))
+			case "non-utf8-method":
+				out = append(out, with(func(x *Rec) { x.Method = base.Method + frag }))
+			default:
+				if r.Bool() {
+					out = append(out, with(func(x *Rec) { x.Icpt = frag + "/1.0" }))
+				} else {
+					out = append(out, with(func(x *Rec) { x.Icpt = "py/" + frag }))
+				}
+			}
+		}
+		return some(r, out)
 	case "percent-case":
 		return []Rec{with(func(x *Rec) { x.URL = base.URL + "%2f" }), with(func(x *Rec) { x.URL = base.URL + "%2F" })}
 	}
@@ -184,12 +226,24 @@ func collisionCorpus() []Case {
 			rec("GET", ":::h.com/a", 200, 2002, "t", ""), rec("GET", "h.com/a:::", 404, 3003, "t", ""),
 			rec("GET", ":h.com/a", 200, 4004, "", ""), rec("GET", "h.com/a", 200, 5005, "", ""),
 			rec("GET", "h.com/a:::GET:::h.com/a", 201, 6006, "", "")}},
+		// keys that are not valid UTF-8 (F-C15e): the inputs of C15_to_valid_utf8_examples as
+		// URL parts, consumer tags and interceptor ids, colliding pairs first
+		{Threshold: 50, Records: []Rec{
+			rec("GET", "h.com/\xff", 200, 0, "caf\xe9", "py/1.0"), rec("GET", "h.com/\xfe", 200, 1100, "caf\xe8", "py/1.0"),
+			rec("GET", "h.com/\xff", 500, 2200, "caf\xe9", "p\xff/1.0"), rec("GET", "h.com/\xfe", 404, 3300, "caf\u00e9", "p\xfe/1.0"),
+			rec("GET", "h.com/\xfe", 201, 4400, "", "py/\xc0\xaf")}},
+		{Threshold: 50, Records: []Rec{
+			rec("GET", "h.com/\xff\xfea", 200, 0, "a\xe2\x82", "py/1.0"), rec("GET", "h.com/\xc0\xafb", 200, 1100, "\xed\xa0\x80", "\xf4\x90\x80\x80/1"),
+			rec("GET", "h.com/\xe9a\xe8", 500, 2200, "\xe2\x82\xe2\x82\xac", "py/1.0"),
+			rec("GET", "h.com/\u00e9\u20ac\U0001F600\uFFFD", 404, 3300, "a\xe2", "py/1.0"),
+			rec("GET\xff", "h.com/\xfe\xffa", 201, 4400, "\uFFFD", "1/\xf5"), rec("GET\xfe", "h.com/\uFFFDa", 200, 5500, "\xff", "py/1.0")}},
 	}
 }
 
 // foldKey: the key under the union of the normalisations the generator aims at
 // (only used to count how often a restart met two such entries in memory)
 func foldKey(e EndpointObs) string {
+	e.URL, e.Method, e.Consumer = canon(e.URL), canon(e.Method), canon(e.Consumer)
 	u := strings.ToLower(strings.TrimSuffix(strings.TrimSpace(e.URL), "/"))
 	if i := strings.Index(u, ":::"); i >= 0 {
 		u = u[:i]
@@ -285,7 +339,17 @@ func restartConservation(before, after Final, what, ctx string, add func(sig, de
 		}
 		obs := fmt.Sprintf("%s, %s: %d entries before, %d after; gone %s, changed %s, new %s%s (%s)", what, name,
 			len(pre), len(post), showKeys(missing), showKeys(changed), showKeys(appeared), why, ctx)
+		nonUTF8 := false
+		for _, k := range append(append([][3]string{}, missing...), changed...) {
+			if !utf8.ValidString(k[0]) || !utf8.ValidString(k[1]) || !utf8.ValidString(k[2]) {
+				nonUTF8 = true
+			}
+		}
 		switch {
+		case nonUTF8:
+			// an entry whose key is not valid UTF-8 did not come back as it was: the
+			// JSON state file cannot hold such a key
+			add(sigNonUTF8Key, dem, obs)
 		case len(post) > 0 && len(post) < len(pre):
 			// fewer entries came back than were held: distinct in-memory keys share an entry of the file
 			add(sigKeyCollision, dem, obs)
@@ -302,6 +366,11 @@ func restartConservation(before, after Final, what, ctx string, add func(sig, de
 	}
 	for _, i := range before.Interceptors {
 		g, ok := got[[2]string{i.Type, i.Version}]
+		if (!ok || !timeOK(g, i.TS, true)) && !(utf8.ValidString(i.Type) && utf8.ValidString(i.Version)) {
+			add(sigNonUTF8Key, "an interceptor's last-seen time survives the round trip of the state file (to the second)",
+				fmt.Sprintf("%s: interceptor %q/%q %d -> %d (present=%v) (%s)", what, i.Type, i.Version, i.TS, g, ok, ctx))
+			return
+		}
 		if !ok || !timeOK(g, i.TS, true) {
 			add("interceptor:restart", "an interceptor's last-seen time survives the round trip of the state file (to the second)",
 				fmt.Sprintf("%s: %q/%q %d -> %d (present=%v) (%s)", what, i.Type, i.Version, i.TS, g, ok, ctx))
